@@ -17,6 +17,7 @@ mod rng;
 mod runner;
 mod sched;
 mod spec;
+mod wav;
 mod world;
 
 use std::{path::Path, time::Duration};
